@@ -906,6 +906,12 @@ func ModifyRegister(register *object.Register, in ast.Node) (ast.Node, bool) {
 			// `for x = ...` reusing the name as loop variable needs a real identifier.
 			return nil, false
 		}
+	case *ast.IndexExpression:
+		if in.Token.Type() == token.DOT && in.Index == ast.Node(register) {
+			// `m.x`: x is the field name, not the variable; it was just replaced by the register: put it back.
+			in.Index = &ast.Identifier{Base: ast.Base{Token: token.Intern(token.IDENT, register.Literal())}}
+			register.Count--
+		}
 	case *ast.FunctionLiteral:
 		// skip lambda/functions in functions.
 		return nil, false
